@@ -76,7 +76,15 @@ func (g *HistGen) hashPool() []string {
 	return hashVals
 }
 
+// hash/range pairs that render to one key string under a plausible mistake in the escaping of the
+// separator: none, '.' only, '\' only, or both in the wrong order
+var collisionPairs = [][2]string{{"a.b", "c"}, {"a", "b.c"}, {"a\\", "b.c"}, {"a.", "b"}, {"a", ".b"}, {"a\\.b", "c"}, {"a\\", ".b.c"}}
+
 func (g *HistGen) genKey(t *TableSpec) Item {
+	if g.p.DotKeys && t.Range != nil && t.Hash[1] == "S" && t.Range[1] == "S" && g.r.Chance(40) {
+		p := pick(g.r, collisionPairs)
+		return Item{{[]byte(t.Hash[0]), S(p[0])}, {[]byte(t.Range[0]), S(p[1])}}
+	}
 	k := Item{{[]byte(t.Hash[0]), g.keyVal(t.Hash[1], g.hashPool())}}
 	if t.Range != nil {
 		k = append(k, KV{[]byte(t.Range[0]), g.keyVal(t.Range[1], rangeValsPrimary)})
@@ -603,6 +611,60 @@ func (g *HistGen) searchOpX(kind string, forceScan bool) *Op {
 			if strings.Contains(kc, ":x") {
 				ctx.Values[":x"] = S("1")
 			}
+		} else if op.KeyTree != nil && g.r.Chance(g.p.BadPct/2) {
+			// a well-formed condition that is not a key condition: DynamoDB only takes an equality on the
+			// partition key, optionally AND one comparison / BETWEEN / begins_with on the sort key
+			ctx = NewExprCtx(g.r)
+			hn := ctx.name([]byte(hash[0]))
+			hv := ctx.value(g.keyVal(hash[1], pool))
+			rn, rv := "", ""
+			if rng != nil {
+				rn = ctx.name([]byte(rng[0]))
+				rv = ctx.value(g.keyVal(rng[1], rangeVals))
+			}
+			class := pick(g.r, []string{"hash-inequality", "no-hash", "or", "non-key", "range-ne", "two-range", "not", "function", "hash-in"})
+			switch class {
+			case "hash-inequality":
+				kc = hn + pick(g.r, []string{" > ", " < ", " <> ", " >= "}) + hv
+			case "no-hash":
+				if rng != nil {
+					kc = rn + " = " + rv
+				} else {
+					kc = ctx.name([]byte("v")) + " = " + hv
+				}
+			case "or":
+				if rng != nil {
+					kc = hn + " = " + hv + " OR " + rn + " = " + rv
+				} else {
+					kc = hn + " = " + hv + " OR " + hn + " = " + ctx.value(g.keyVal(hash[1], pool))
+				}
+			case "non-key":
+				kc = hn + " = " + hv + " AND " + ctx.name([]byte("v")) + " = " + ctx.value(S(pick(g.r, vVals)))
+			case "range-ne":
+				if rng != nil {
+					kc = hn + " = " + hv + " AND " + rn + " <> " + rv
+				} else {
+					kc = hn + " <> " + hv
+				}
+			case "two-range":
+				if rng != nil {
+					kc = hn + " = " + hv + " AND " + rn + " >= " + rv + " AND " + rn + " <= " + ctx.value(g.keyVal(rng[1], rangeVals))
+				} else {
+					kc = hn + " = " + hv + " AND " + hn + " = " + ctx.value(g.keyVal(hash[1], pool))
+				}
+			case "not":
+				kc = "NOT " + hn + " = " + hv
+			case "function":
+				if rng != nil {
+					kc = hn + " = " + hv + " AND " + pick(g.r, []string{"contains(", "attribute_type("}) + rn + ", " + rv + ")"
+				} else {
+					kc = "attribute_exists(" + hn + ")"
+				}
+			default:
+				kc = hn + " IN (" + hv + ")"
+			}
+			op.KeyTree = nil
+			op.BadKeyCond = class
 		}
 		op.KeyCond = HexS(kc)
 	}
@@ -629,7 +691,7 @@ func (g *HistGen) genQuery() { g.ops = append(g.ops, g.searchOp("query")) }
 
 func (g *HistGen) genPages() {
 	op := g.searchOp("pages")
-	if g.r.Chance(g.p.DelBoundary) {
+	if op.BadKeyCond == "" && g.r.Chance(g.p.DelBoundary) {
 		n := g.r.Intn(2)
 		op.DelAfter = &n
 	}
